@@ -28,6 +28,19 @@ def _binary(module, what='seqs'):
     return hasattr(module, prop) and getattr(module, prop)
 
 
+def _is_binary_handle(f):
+    """
+    Check if a file-like object delivers bytes
+
+    Besides the `io` classes for binary files, this recognizes wrappers around them,
+    e.g. `tempfile.NamedTemporaryFile()`, via their mode attribute.
+    Text wrappers (`io.TextIOBase`, `codecs.StreamReaderWriter`, ...) have an encoding attribute.
+    """
+    if isinstance(f, (io.BufferedIOBase, io.RawIOBase)):
+        return True
+    return not hasattr(f, 'encoding') and 'b' in str(getattr(f, 'mode', ''))
+
+
 @contextmanager
 def _file_opener(f, mode='r', binary=False, encoding=None):
     if isinstance(f, str):
@@ -37,7 +50,7 @@ def _file_opener(f, mode='r', binary=False, encoding=None):
             yield fh
     else:
         # not a string - we assume a file-like object
-        if not binary and isinstance(f, io.BufferedIOBase):
+        if not binary and _is_binary_handle(f):
             f = _NonClosingTextIOWrapper(f, encoding=encoding)
         yield f
 
@@ -63,9 +76,9 @@ def detect(fname, what='seqs', *, encoding=None, **kw):
         for fmt in FMTS_ALL[what]:
             module = EPS[what][fmt].load()
             if hasattr(module, funcname := f'is{suf}_{fmt}'):
-                if _binary(module, what) and not isinstance(f, io.BufferedIOBase):
+                if _binary(module, what) and not _is_binary_handle(f):
                     continue
-                if not _binary(module, what) and isinstance(f, io.BufferedIOBase):
+                if not _binary(module, what) and _is_binary_handle(f):
                     f_text_or_binary = _NonClosingTextIOWrapper(f, encoding=encoding)
                 else:
                     f_text_or_binary = f
